@@ -278,8 +278,14 @@ def run(ctx):
     from senaite.astm import simulator
     tmpd = tempfile.mkdtemp(prefix="astm-c19-")
     try:
-        for _ in range(200 if ctx.thorough else 30):
+        for it_ in range(200 if ctx.thorough else 30):
             files = [gen_lines(r) for _ in range(r.choice([1, 2, 3]))]
+            if it_ % 15 == 1:
+                # a capture of a whole day: more than any read buffer (64 KiB, 128 KiB) holds, CR LF line ends
+                files[0] = [gens.frame(k_ % 8, b"R|%d|^^^T%d|%d.%d|mmol/L" % (k_, k_ % 97, k_ % 13, k_ % 10) +
+                                       bytes(r.randrange(0x20, 0x7f) for _x in range(r.randrange(0, 40))), True)
+                            for k_ in range(r.choice([1700, 2600, 5200]))]
+                mf.count("file larger than 64 KiB")
             paths = []
             for i, ls in enumerate(files):
                 pth = os.path.join(tmpd, "f%d.txt" % i)
@@ -296,7 +302,7 @@ def run(ctx):
                     p_ = ScriptedPeer([b"\x06"] * r.choice([1, 2]) + [RESET])
                     p_.faulty = True
                 else:
-                    p_ = ScriptedPeer([b"\x06"] * 50)
+                    p_ = ScriptedPeer([b"\x06"] * (max(len(ls_) for ls_ in files) + 50))
                 peers.append(p_)
                 return p_, p_
             orig_open, orig_argv = asyncio.open_connection, sys.argv
@@ -326,7 +332,8 @@ def run(ctx):
                 return [b"\x05"] + [l.strip(b"\r\n") for l in ls if l.strip(b"\r\n")] + [b"\x04"]
             exp = sorted(units_of(p_) for p_ in paths)
             got = sorted([e[1] for e in p_.log if e[0] == "W"] for p_ in peers)
-            case = {"files": [[hexb(l) for l in ls] for ls in files], "connection_reset_on_transfer": fault_on}
+            case = {"files": [[hexb(l) for l in ls] if len(ls) < 200 else "%d lines, %d bytes" % (len(ls), sum(len(l) + 1 for l in ls))
+                              for ls in files], "connection_reset_on_transfer": fault_on}
             mf.case(case, nontrivial=len(files) > 1)
             if fault_on is not None:
                 # every transfer but the one whose connection broke is complete
